@@ -92,9 +92,13 @@ Must(unc) == ConfMust \cup (IF unc THEN UncMust ELSE {})
 May(unc)  == ConfMay \cup (IF unc THEN UncMay ELSE {})
 
 \* fresh output ids / transaction ids
-FreshMade(M) == /\ \A o \in M : o.id >= nextId /\ o.v > 0
+\* Ids are names: a new output / transaction needs a name that is not in use (the model checker
+\* and the sequential drivers simply count up; the two calls of a concurrent pair are named
+\* before TLC decides in which order they took effect)
+UsedIds == DOMAIN owned \cup Ids(UNION {txs[t].made : t \in TxIds})
+FreshMade(M) == /\ \A o \in M : o.id >= 1 /\ o.id \notin UsedIds /\ o.v > 0
                 /\ Cardinality(Ids(M)) = Cardinality(M)
-BumpId(M) == IF M = {} THEN nextId ELSE 1 + MaxOf(Ids(M))
+BumpId(M) == IF M = {} THEN nextId ELSE MaxOf({nextId, 1 + MaxOf(Ids(M))})
 
 Prune(l, t) == Restrict(l, {i \in DOMAIN l : t < l[i]})
 \* lockUTXOs (wallet.go:420-429): every id of S is reserved until now + cfg.rt
@@ -108,7 +112,7 @@ AllocateX(D, st, extra) ==
         D2tx(d) == [ver |-> d.ver, st |-> st, ins |-> d.ins, inv |-> SumV(d.ins), out |-> d.out,
                     fee |-> d.fee, made |-> d.made, exp |-> now + cfg.rt]
     IN /\ Cardinality(tids) = Cardinality(D)
-       /\ \A d \in D : d.tid >= nextTx /\ d.fee >= 0 /\ d.out >= 0 /\ d.ins # {}
+       /\ \A d \in D : d.tid >= 1 /\ d.tid \notin TxIds /\ d.fee >= 0 /\ d.out >= 0 /\ d.ins # {}
        /\ FreshMade(mades)
        /\ \A d1, d2 \in D : d1 # d2 => d1.ins \cap d2.ins = {} /\ Ids(d1.made) \cap Ids(d2.made) = {}
        \* an input taken over from a transaction whose release is in flight shows that the release
@@ -119,7 +123,7 @@ AllocateX(D, st, extra) ==
                     ELSE D2tx(CHOOSE d \in D : d.tid = t)]
        /\ locked' = Lock(UNION {d.ins : d \in D} \cup extra)   \* extra # {} only under a named deviation
        /\ nextId' = BumpId(mades)
-       /\ nextTx' = 1 + MaxOf(tids)
+       /\ nextTx' = MaxOf({nextTx, 1 + MaxOf(tids)})
        /\ UNCHANGED <<cfg, owned, now>>
 
 Allocate(D, st) == AllocateX(D, st, {})
